@@ -34,7 +34,6 @@ NS == Num(IOEnv.S)                  \* command-line spellings per configuration
 \* The property's words: non-zero exit, every error printed, nothing half-written. A panic message that names the
 \* failure is a printed error under this reading; PANIC_OK = "0" makes the check strict about it.
 PanicIsDiagnostic == IOEnv.PANIC_OK = "1"
-ModuleName == "c20mod"
 
 ---------------------------------------------------------------------------
 (* Index arithmetic: idx = 1 + base + NBase * (v + NV * spell) *)
@@ -46,11 +45,11 @@ Idx(b, v, sp) == 1 + b + NBase * (v + NV * sp)
 
 FileAbsentSink == 3                 \* Sinks[3] = -o FILE, FILE absent
 \* same program and flags, written to an absent FILE with the canonical spelling
-Canon(i) == LET c == Case(i) IN Idx(BaseIndex(FileAbsentSink, c.req, c.nostd, ProgNo(c), c.std), Var(i), 0)
+Canon(i) == LET c == Case(i) IN Idx(BaseIndex(FileAbsentSink, ReqNo(c), c.nostd, ProgNo(c), c.std), Var(i), 0)
 \* ... and without --require
-NoReq(i) == LET c == Case(i) IN Idx(BaseIndex(FileAbsentSink, FALSE, c.nostd, ProgNo(c), c.std), Var(i), 0)
+NoReq(i) == LET c == Case(i) IN Idx(BaseIndex(FileAbsentSink, 0, c.nostd, ProgNo(c), c.std), Var(i), 0)
 \* same everything, --no-std toggled
-Flip(i)  == LET c == Case(i) IN Idx(BaseIndex(SinkNo(c), c.req, ~c.nostd, ProgNo(c), c.std), Var(i), Spell(i))
+Flip(i)  == LET c == Case(i) IN Idx(BaseIndex(SinkNo(c), ReqNo(c), ~c.nostd, ProgNo(c), c.std), Var(i), Spell(i))
 
 ---------------------------------------------------------------------------
 (* Observation classes, derived from the raw facts *)
@@ -85,12 +84,9 @@ ObsChunk(r) == IF ~r.lua.started THEN "none"
 \* stdout as one contiguous piece; anything before or after it is free.
 RunOutputConforms(r, want) == (want \in {"all", "prefix"}) => r.so.has_out
 
-\* a rendered error block names a file and a line; the wording (and the kind of error) is free
-Site(e) == [file |-> e.file, line |-> e.line]
-Sites(s) == [i \in 1..Len(s) |-> Site(s[i])]
-Occ(s, x) == Cardinality({i \in 1..Len(s) : s[i] = x})
-SameBag(a, b) == /\ Len(a) = Len(b)
-                 /\ \A i \in 1..Len(a) : Occ(a, a[i]) = Occ(b, a[i])
+\* a rendered error block names a file and a line; the wording (and the kind of error) is free.  The recorder gives
+\* the number of blocks and a digest of the sorted list of their file:line sites (the order of printing is free)
+SameSites(a, b) == a.n = b.n /\ a.bag = b.bag
 
 \* whether the child `lua` is started before the compiler has accepted the program is free
 ChunkNorm(o) == IF o = "none" THEN "empty" ELSE o
@@ -108,12 +104,12 @@ StdoutObservable == cfg.path # "unwritable"
 \* r.blocks: the error blocks found on stdout and stderr of the command; r.ref.blocks: the blocks the same recogniser
 \* finds in the library's own rendering of the library's error list for the same files (both from the current tree)
 ErrorsWhat(r) ==
-    LET want == NCompile(printed)  got == Len(r.blocks) IN
+    LET want == NCompile(printed)  got == r.blocks.n IN
     IF ~StdoutObservable THEN {}
     ELSE IF want = 0 /\ got > 0 THEN {"errors-spurious"}
     ELSE IF got < want THEN {"errors-missing"}
     ELSE IF got > want THEN {"errors-extra"}
-    ELSE IF want > 0 /\ ~SameBag(Sites(r.blocks), Sites(r.ref.blocks)) THEN {"errors-location"}
+    ELSE IF want > 0 /\ ~SameSites(r.blocks, r.ref.blocks) THEN {"errors-location"}
     ELSE {}
 
 LuaErrWhat(r) == IF Has(printed, "lua") /\ ~(r.lua.err_len > 0 /\ r.lua.msg_printed) THEN {"errors-missing"} ELSE {}
@@ -153,11 +149,12 @@ RequireWhat(r) ==
     IF ~(Emits /\ e.present) THEN {}
     ELSE IF ~e.pre_ok \/ e.n_req_pre # 0 THEN {"require"}
     ELSE IF cfg.req
-      THEN IF /\ e.n_req = 1 /\ e.req_lead_blank                   \* once, and nothing but blanks between the preamble's end and it
-              /\ e.run.requires = <<ModuleName>>                    \* and executed exactly once, naming M
+      THEN IF /\ e.req_names = <<ExpectedModule(cfg)>>              \* one require statement in the text, and it names M (without one trailing .lua)
+              /\ e.req_lead_blank                                  \* nothing but blanks between the preamble's end and it
+              /\ e.run.requires = <<ExpectedModule(cfg)>>           \* and executed exactly once, naming M
               /\ (q.emit.present => e.wo_req_digest = q.emit.digest)   \* in front of the unchanged program
            THEN {} ELSE {"require"}
-      ELSE IF e.n_req = 0 /\ Len(e.run.requires) = 0 THEN {} ELSE {"require"}
+      ELSE IF Len(e.req_names) = 0 /\ Len(e.run.requires) = 0 THEN {} ELSE {"require"}
 
 \* --no-std changes nothing for a program that does not use the standard library
 NoStdWhat(r) ==
@@ -165,7 +162,7 @@ NoStdWhat(r) ==
     IF cfg.std THEN {}
     ELSE IF /\ ObsExit(r) = ObsExit(p) /\ ObsFs(r) = ObsFs(p) /\ ObsSoProg(r) = ObsSoProg(p)
             /\ ChunkNorm(ObsChunk(r)) = ChunkNorm(ObsChunk(p))
-            /\ SameBag(Sites(r.blocks), Sites(p.blocks))
+            /\ SameSites(r.blocks, p.blocks)
             /\ r.emit.present = p.emit.present
             /\ r.emit.pre_digest = p.emit.pre_digest          \* the same runtime preamble
             /\ r.emit.run.status = p.emit.run.status /\ r.emit.run.out_digest = p.emit.run.out_digest   \* the emitted programs behave alike
@@ -191,13 +188,13 @@ RecordWellFormed(i) ==
     /\ Assert(r.cfg = c, <<"universe mismatch at record", i, r.cfg, c>>)
     /\ Assert((r.ref.class = "ok") = CompileSucceeds(c), <<"program not in its class (accept/reject)", i, r.ref.class>>)
     /\ Assert(r.ref.run.status \in WantStatus(c), <<"program not in its class (run)", i, r.ref.run.status>>)
-    /\ Assert(~CompileSucceeds(c) => Len(r.ref.errors) \in ErrCounts(c), <<"rejected program without errors, or with more than MaxErrs", i, Len(r.ref.errors)>>)
-    /\ Assert(Len(r.ref.blocks) = Len(r.ref.errors), <<"the block recogniser does not find one block per library error", i, Len(r.ref.blocks), Len(r.ref.errors)>>)
+    /\ Assert(~CompileSucceeds(c) => r.ref.nerrors \in ErrCounts(c), <<"rejected program without errors, or with more than MaxErrs", i, r.ref.nerrors>>)
+    /\ Assert(r.ref.blocks.n = r.ref.nerrors, <<"the block recogniser does not find one block per library error", i, r.ref.blocks.n, r.ref.nerrors>>)
     /\ Assert(c.std \/ r.ref.run.out_len = 0, <<"std-free program prints", i>>)
     /\ Assert(Canon(i) \in 1..N /\ NoReq(i) \in 1..N /\ Flip(i) \in 1..N, <<"partner outside the trace", i>>)
 
 EarlyIoFailure(r) == /\ cfg.mode = "file" /\ ~Writable(cfg) /\ ~CompileSucceeds(cfg)
-                     /\ Len(r.blocks) = 0                       \* no compile error was printed
+                     /\ r.blocks.n = 0                          \* no compile error was printed
                      /\ r.exit # 0
 
 TraceInit ==
@@ -213,7 +210,7 @@ TraceStep ==
     /\ st = "run" /\ ~Done
     /\ \/ ParseArgs \/ CompileOk \/ RunOk \/ RunFail
        \* a rejected program and an unwritable FILE: which of the two the command met first is read off the recording
-       \/ (~EarlyIoFailure(R) /\ CompileErrN(Len(R.ref.errors)))
+       \/ (~EarlyIoFailure(R) /\ CompileErrN(R.ref.nerrors))
        \/ (EarlyIoFailure(R) /\ OutputFailEarly)
        \/ WriteStdout \/ WriteFileOk \/ WriteFileFail \/ PrintErrors \/ Exit
        \* an unwritable stdout: the recorded status selects the behaviour where the property leaves it open
@@ -231,7 +228,7 @@ TraceReject ==
     /\ st' = "fail"
     /\ PrintT(<<"REJECT", ToJson([rec |-> k, whats |-> Fails(R), expect |-> Expectation,
                                   observed |-> [exit |-> ObsExit(R), code |-> R.exit, fs |-> ObsFs(R), soprog |-> ObsSoProg(R),
-                                                chunk |-> ObsChunk(R), blocks |-> Len(R.blocks), panic |-> R.se.panic],
+                                                chunk |-> ObsChunk(R), blocks |-> R.blocks.n, panic |-> R.se.panic],
                                   partners |-> [canon |-> Canon(k), noreq |-> NoReq(k), flip |-> Flip(k)]])>>)
     /\ UNCHANGED <<cfg, pc, fs, chunk, soprog, sorun, errs, printed, exit, hist, k>>
 
